@@ -344,8 +344,22 @@ func Run[C any](u *Unit, t *testing.T, ft Fataler, c C, nontrivial bool, labels 
 	u.Case(c, nontrivial, labels...)
 	err := Safely(func() error { return run(t, c) })
 	if err != nil {
+		if Inconclusive(err) {
+			// the harness could not set the case up (environment hiccup): never a violation
+			u.Add("inconclusive", 1)
+			if sk, ok := ft.(interface{ Skipf(string, ...any) }); ok {
+				sk.Skipf("inconclusive: %v", err)
+			}
+			return
+		}
 		ft.Fatalf("%s", u.Fail(c, "%v", err))
 	}
+}
+
+// Inconclusive reports whether err says that the harness itself could not carry the case
+// out (message starting with "harness:"); such a case is counted, not reported.
+func Inconclusive(err error) bool {
+	return err != nil && strings.HasPrefix(err.Error(), "harness:")
 }
 
 // RunReplays executes every replay file named by VERIF_REPLAY whose unit is
